@@ -29,6 +29,7 @@ class _Collector(ast.NodeVisitor):
         self.scalars = set()
         self.tuples = set()
         self.calls = []
+        self.names = set()        # string constants that are NAMES of the bundled code table (records picked by name)
         self.table = set()        # keys of dict tables / members of enums: bulk values, not compared one by one
 
     # constants used purely as subscripts (args[2], events[-1], x[1:4]) say nothing about VALUES
@@ -41,6 +42,8 @@ class _Collector(ast.NodeVisitor):
     def visit_Constant(self, node):
         if _is_int(node.value):
             self.scalars.add(node.value)
+        elif isinstance(node.value, str) and node.value in _table_names():
+            self.names.add(node.value)
 
     def visit_UnaryOp(self, node):
         if isinstance(node.op, ast.USub) and isinstance(node.operand, ast.Constant) and _is_int(node.operand.value):
@@ -134,6 +137,16 @@ class _Collector(ast.NodeVisitor):
 
 _MISSING = object()
 _direct = {}
+_names = None
+
+
+def _table_names():
+    global _names
+    if _names is None:
+        from pykdebugparser.trace_codes import default_trace_codes
+        _names = set(default_trace_codes().values())
+    return _names
+
 
 
 def direct(fn):
@@ -141,17 +154,17 @@ def direct(fn):
     while isinstance(fn, partial):
         fn = fn.func
     if not isinstance(fn, types.FunctionType):
-        return set(), set(), [], set()
+        return set(), set(), [], set(), set()
     if fn in _direct:
         return _direct[fn]
-    _direct[fn] = (set(), set(), [], set())
+    _direct[fn] = (set(), set(), [], set(), set())
     mod = getattr(fn, '__module__', '') or ''
     if mod.startswith('pykdebugparser'):
         try:
             tree = ast.parse(textwrap.dedent(inspect.getsource(fn)))
             c = _Collector(fn.__globals__, 0, None)
             c.visit(tree)
-            _direct[fn] = (c.scalars, c.tuples, [f for f in c.calls if f is not fn], c.table)
+            _direct[fn] = (c.scalars, c.tuples, [f for f in c.calls if f is not fn], c.table, c.names)
         except (OSError, TypeError, SyntaxError):
             pass
     return _direct[fn]
@@ -203,19 +216,20 @@ def mined(name):
     if name in _cache:
         return _cache[name]
     fn = _handlers().get(name)
-    spec, common, tu = set(), set(), set()
+    spec, common, tu, names = set(), set(), set(), set()
     if fn is not None:
         fi = fanin()
         for f in reach(fn):
-            sc, t, _, tab = direct(f)
+            sc, t, _, tab, nm = direct(f)
             if fi.get(f, 1) <= SHARED:
                 spec |= sc | tab
                 tu |= t
+                names |= nm
             else:
                 common |= sc          # bulk tables of widely shared helpers (errno names ...) are swept by the checks anyway
     ok = lambda v: -(1 << 63) <= v <= MASK64      # noqa
     out = {'specific': sorted(v for v in spec if ok(v)), 'common': sorted(v for v in common - spec if ok(v)),
-           'tuples': sorted(t for t in tu if all(ok(v) for v in t))}
+           'tuples': sorted(t for t in tu if all(ok(v) for v in t)), 'names': sorted(names - {name})}
     _cache[name] = out
     return out
 
@@ -230,7 +244,7 @@ def parser_level():
             if isinstance(f, types.FunctionType):
                 for g in reach(f, 2):
                     if g not in fanin() or g is f:
-                        a, b, _, _t = direct(g)
+                        a, b, _, _t, _n = direct(g)
                         sc |= a
                         tu |= b
         _cache['__parser__'] = {'specific': sorted(sc), 'common': [], 'tuples': sorted(tu)}
